@@ -16,33 +16,6 @@ RULE = ("programs: explicit enumeration (ptgfam.c01_family), every variant valid
 ORACLE = 1
 
 
-def legs(ctx, R, progs, exes, oracle, quick, hs_startup, free_startup, threads, reps, full_upto, maxdev, hs_deadline, free_deadline, extra=()):
-    hs_jobs, free_jobs, kn_jobs = [], [], []
-    for be, exe in exes.items():
-        normal = []
-        for p in progs:
-            if be not in p.backends:
-                continue
-            kn = ptgrun.finding_for(p, be)
-            flagged = bool(p.traits(be))
-            common = ['--backend', be, '--oracle', str(oracle)] + list(extra)
-            j = dict(exe=exe, args=['--mode', 'hs', '--programs', p.name, '--startup', hs_startup, '--full-upto', str(full_upto), '--maxdev', str(maxdev),
-                                    '--maxruns', '60000' if quick else '2000000', '--deadline', str(hs_deadline)] + common,
-                     label='%s-%s-hs' % (p.name, be), known=kn, timeout=hs_deadline + 120)
-            (kn_jobs if flagged else hs_jobs).append(j)
-            if not flagged:
-                normal.append(p.name)
-            elif not quick or be == 'ht':
-                kn_jobs.append(dict(exe=exe, args=['--mode', 'free', '--programs', p.name, '--scheds', 'lfq', '--threadlist', '2', '--reps', '1', '--startup', '0'] + common,
-                                    label='%s-%s-free' % (p.name, be), known=kn, limit=1.5, timeout=120))
-        for s in ptgrun.SCHEDS:
-            for t in threads:
-                free_jobs.append(dict(exe=exe, args=['--mode', 'free', '--programs', ','.join(normal), '--sched', s, '--threads', str(t), '--reps', str(reps),
-                                                     '--startup', free_startup, '--deadline', str(free_deadline), '--backend', be, '--oracle', str(oracle), '--spin', '0' if t == 1 else '30'] + list(extra),
-                                      label='free-%s-%s-%d' % (be, s, t), timeout=free_deadline + 300))
-    return hs_jobs, free_jobs, kn_jobs
-
-
 def check(ctx):
     quick = ctx.tier == 'quick'
     progs, refused = ptgfam.c01_family(ctx.tier)
@@ -57,9 +30,9 @@ def check(ctx):
     ctx.notes.append('library build %.1fs, programs build (ptgpp + cc, %d programs x 2 back-ends) %.1fs' % (t1 - t0, len(progs + neg), time.time() - t1))
     grid = ','.join('%d:%d' % (i, c) for i in (1, 2, 3, 0) for c in (1, 2, 3, 0))
     if quick:
-        hs, fr, kn = legs(ctx, R, progs + neg, exes, ORACLE, True, '0,1:1', '0,1:1', (1, 2, 4), 2, 5, 2, 14, 16)
+        hs, fr, kn = ptgrun.make_jobs(progs + neg, exes, ORACLE, True, '0,1:1', '0,1:1', (1, 2, 4), 2, 5, 2, 14, 16)
     else:
-        hs, fr, kn = legs(ctx, R, progs + neg, exes, ORACLE, False, grid, grid, (1, 2, 3, 4, 8), 3, 7, 3, 300, 240)
+        hs, fr, kn = ptgrun.make_jobs(progs + neg, exes, ORACLE, False, grid, grid, (1, 2, 3, 4, 8), 3, 7, 3, 300, 240)
     ctx.notes.append('%d programs, %d variants; %d variants refused by the reference interpreter' % (len(progs), sum(len(p.variants) for p in progs), refused))
     R.run_jobs(hs, 'hsched-all-task-orders')
     R.run_jobs(fr, 'free-running-configuration-box')
